@@ -22,9 +22,14 @@ class SuffixTrie(object):
         # Iterating over the suffix parts in reverse order
         for part in reversed(suffix.split(".")):
 
+            # NOTE: an exception rule only concerns its parent, which is not a
+            # suffix because of it
             if part.startswith("!"):
-                node.exception = part[1:]
-                break
+                if node.exception is None:
+                    node.exception = set()
+
+                node.exception.add(part[1:])
+                return
 
             # To save up some RAM, we initialize the children dict only
             # when strictly necessary
@@ -57,44 +62,45 @@ class SuffixTrie(object):
         hostname = parsed.hostname.lower().rstrip(".")
         parts = hostname.split(".")
 
-        current_length = 0
-        suffix_length = 0
-        match = None
         l = len(parts)
 
-        node = self.__root
+        # NOTE: a label can match both an explicit child and the wildcard one,
+        # and the longest rule can be found down either of them
+        suffix_length = 0
+        match = None
+        stack = [(self.__root, l - 1, 0)]
 
-        for i in range(l - 1, -1, -1):
+        while stack:
+            node, i, current_length = stack.pop()
+
+            if i < 0:
+                continue
+
             part = parts[i]
+
+            # An exception rule prevails and its parent is the suffix
+            if node.exception is not None and part in node.exception:
+                suffix_length = current_length
+                match = node
+                break
 
             # Cannot go deeper
             if node.children is None:
-                break
+                continue
 
-            # Exception
-            if part == node.exception:
-                break
+            for key in ("*", part):
+                child = node.children.get(key)
 
-            child = node.children.get(part)
+                if child is None or (key == "*" and part == "*"):
+                    continue
 
-            # Wildcards
-            if child is None:
-                child = node.children.get("*")
+                if child.leaf and current_length + 1 > suffix_length:
+                    suffix_length = current_length + 1
+                    match = child
 
-            # If the current part is not in current node's children, we can stop
-            if child is None:
-                break
+                stack.append((child, i - 1, current_length + 1))
 
-            # Else we move deeper and increment our suffix offset
-            current_length += 1
-            node = child
-
-            if node.leaf:
-                suffix_length = current_length
-                match = node
-
-        # Checking the node we finished on is a leaf and is one we allow
-        if match is None or not match.leaf:
+        if match is None or suffix_length == 0:
             return None
 
         # hostname = suffix ?
